@@ -1,6 +1,9 @@
 #!/bin/bash
-# tools/apply_patch.sh <dir> <patch>: apply with exact line endings, else let patch adapt them
-D=$1; P=$(realpath "$2")
+# tools/apply_patch.sh <dir> <patch>: apply with exact line endings, else let patch adapt them.
+# <dir> must be a scratch copy: the fallback discards uncommitted changes in it.
+[ $# -eq 2 ] && [ -d "$1" ] && [ -f "$2" ] || { echo "usage: apply_patch.sh <scratch-dir> <patch>" >&2; exit 2; }
+D=$(realpath "$1"); P=$(realpath "$2")
+case "$D" in /repo|/repo/*|/verif|/verif/*) echo "apply_patch.sh: refusing to work in $D" >&2; exit 2;; esac
 patch --binary -p1 -s -f -d "$D" -i "$P" >/dev/null 2>&1 && exit 0
 find "$D" -name '*.rej' -delete 2>/dev/null; find "$D" -name '*.orig' -delete 2>/dev/null
 ( cd "$D" && git checkout -- . 2>/dev/null )
